@@ -11,7 +11,7 @@
    Phrase ids: a statement is identified by its node id (`stmt_nid`; a procedure call by the node id of its
    callee), a concurrent statement by the node id of its label, an initial value by the node id of the declared
    name. *)
-From Coq Require Import List NArith Arith Bool.
+From Coq Require Import List NArith Arith Bool Orders Sorting.Mergesort.
 Import ListNotations.
 From RH Require Import Mini.Syntax Mini.Sem.
 Open Scope N_scope.
@@ -233,3 +233,19 @@ Definition sub_phrase (s : nid) (f : phrase -> phrase) (p : program) : program :
 Definition find_phrase (p : program) (s : nid) : option pinfo :=
   find (fun i => pi_id i =? s) (walk_program p).
 Definition max_nid (p : program) : nid := fold_right N.max 0 (nids_program p).
+
+(* all node ids of the program are different (decided by sorting) *)
+Module NOrder <: TotalLeBool.
+  Definition t := N.
+  Definition leb := N.leb.
+  Theorem leb_total : forall a1 a2, leb a1 a2 = true \/ leb a2 a1 = true.
+  Proof. intros a1 a2. unfold leb. destruct (N.leb_spec a1 a2) as [H|H]; [left; reflexivity|right]. apply N.leb_le. apply N.lt_le_incl. exact H. Qed.
+End NOrder.
+Module NSort := Sort NOrder.
+Fixpoint adjacent_distinct (l : list N) : bool :=
+  match l with
+  | a :: ((b :: _) as r) => negb (a =? b) && adjacent_distinct r
+  | _ => true
+  end.
+Definition nodup_list (l : list N) : bool := adjacent_distinct (NSort.sort l).
+Definition nodup_nids (p : program) : bool := nodup_list (nids_program p).
